@@ -21,6 +21,7 @@ import (
 	"os"
 	"path/filepath"
 	"runtime"
+	"sort"
 	"strconv"
 	"strings"
 	"sync"
@@ -92,6 +93,7 @@ func (i *ident) tlsCert(chain ...*ident) tls.Certificate {
 
 type pki struct {
 	ca, server, valid, wrongName, selfSigned, foreignCA, foreign, expired, inter, underInter, neutralInter, validUnderNeutral, revoked *ident
+	nameVariants                                                                                                                       map[string]*ident
 	dir                                                                                                                                string
 }
 
@@ -118,6 +120,13 @@ func newPKI() *pki {
 	p.valid = issue(ruleName, false, p.ca, ok1, ok2)
 	p.wrongName = issue("mallory", false, p.ca, ok1, ok2)
 	p.revoked = issue(revokedName, false, p.ca, ok1, ok2)
+	// names that differ from the rule's name by case, by a character that case-folds to one of its letters (U+017F folds to s), by
+	// white space or by one character: the rule names ONE name
+	p.nameVariants = map[string]*ident{}
+	for k, n := range map[string]string{"name-uppercase": strings.ToUpper(ruleName), "name-titlecase": "Trusted-Client", "name-unicode-fold": "tru\u017fted-client",
+		"name-trailing-space": ruleName + " ", "name-leading-space": " " + ruleName, "name-prefix": ruleName[:len(ruleName)-1], "name-extended": ruleName + "2"} {
+		p.nameVariants[k] = issue(n, false, p.ca, ok1, ok2)
+	}
 	p.selfSigned = issue(ruleName, false, nil, ok1, ok2)
 	p.foreignCA = issue("foreign-ca", true, nil, ok1, ok2)
 	p.foreign = issue(ruleName, false, p.foreignCA, ok1, ok2)
@@ -578,6 +587,38 @@ func modeTLSGate(args []string) {
 					r.Executed = atomic.LoadInt64(&s.executed) - before
 					emit(r)
 				}
+			}
+		}
+		// certificates of the configured CA whose common name is ALMOST the rule's name
+		{
+			keys := []string{}
+			for k := range p.nameVariants {
+				keys = append(keys, k)
+			}
+			sort.Strings(keys)
+			for _, k := range keys {
+				cert := p.nameVariants[k].tlsCert()
+				r := gateResult{Config: cfgName, Cred: k, Fault: "complete", Order: "bad-first", GoodTLS: true, GoodPlain: true}
+				before := atomic.LoadInt64(&s.executed)
+				raw, err := net.DialTimeout("tcp", addr(s.secure), ioTimeout)
+				if err != nil {
+					r.Note = "dial: " + err.Error()
+				} else {
+					c := tls.Client(raw, p.clientConfig(&cert))
+					c.SetDeadline(time.Now().Add(ioTimeout))
+					if err := c.Handshake(); err == nil {
+						r.Handshake = true
+						if pw != "" {
+							exchange(c, resp("AUTH", pw))
+						}
+						rep, err := exchange(c, resp("WHOAMI"))
+						r.Served = err == nil && strings.HasPrefix(rep, "$")
+					}
+					raw.Close()
+				}
+				time.Sleep(2 * time.Millisecond)
+				r.Executed = atomic.LoadInt64(&s.executed) - before
+				emit(r)
 			}
 		}
 		// many failed handshakes in a row (port probes, health checks that connect and hang up): whatever the server keeps per
@@ -1859,7 +1900,12 @@ func modeRaceStress(args []string) {
 				for i := 0; i < n; i++ {
 					cmd := cmds[next()%len(cmds)]
 					c.SetDeadline(time.Now().Add(time.Second))
-					if _, err := exchange(c, resp(cmd...)); err != nil {
+					req := resp(cmd...)
+					if next()%6 == 0 {
+						// top-level values that are not requests (a status line, an integer, a bulk string, an error): answered with an error reply
+						req = []string{"+PING\r\n", ":1\r\n", "$3\r\nfoo\r\n", "-ERR x\r\n", "*0\r\n", "*1\r\n*1\r\n$4\r\nPING\r\n"}[next()%6]
+					}
+					if _, err := exchange(c, req); err != nil {
 						break
 					}
 					atomic.AddInt64(&ops, 1)
